@@ -24,4 +24,8 @@ theorem c20_lef_units_from_source :
        | some (_, sc) => if Gen.legalDbuSrc.contains sc then .ok sc else .err
        | none => .err) := by decide
 
+/-- C16: `LefImporter::import_layer` makes exactly the calls `Layers.importByName` models, in that order:
+    look the name up, else take the next free number, build a layer of that number and name, add it -/
+theorem c16_import_layer_calls : Gen.lefImportLayerCalls = ["keyname", "nextnum", "Layer::new", "add"] := by decide
+
 end L21
